@@ -374,6 +374,26 @@ async fn run_call(mut kit: Kit, call: Call, ab_id: Option<i32>) -> (Kit, Ret) {
             kit.ldap = None;
             Ret::Unit
         }
+        Call::SearchOpts { marker } => {
+            let ldap = kit.ldap.as_mut().expect("handle");
+            ldap.with_search_options(SearchOptions::new().sizelimit(11).timelimit(6).typesonly(true));
+            match ldap.search(&marker, Scope::Subtree, "(objectClass=*)", vec!["cn".to_string()]).await {
+                Ok(sr) => Ret::SearchRes(sr.0.iter().map(ritem).collect(), rres(&sr.1)),
+                Err(e) => err_ret(&e),
+            }
+        }
+        Call::DropStream => {
+            kit.stream = None;
+            kit.inner = None;
+            Ret::Unit
+        }
+        Call::ExplicitStart => match kit.stream.as_mut() {
+            None => Ret::Err("NoStream".into(), "no stream (start failed)".into()),
+            Some(s) => match s.start("explicit-start", Scope::Base, "(cn=again)", vec!["cn".to_string()]).await {
+                Ok(()) => Ret::Unit,
+                Err(e) => err_ret(&e),
+            },
+        },
         Call::SingleViaStream { kind, marker } => match kit.stream.as_mut() {
             None => Ret::Err("NoStream".into(), "no stream (start failed)".into()),
             Some(s) => single_op(s.ldap_handle(), &kind, &marker).await,
@@ -523,6 +543,15 @@ pub fn result_referral(marker: &str, plan: &Plan) -> Vec<String> {
     }
 }
 
+/// the item kinds of a non-paged search (`many_items` overrides `items`)
+pub fn plan_items_of(plan: &Plan) -> Vec<ItemKind> {
+    if plan.many_items > 0 {
+        (0..plan.many_items).map(|j| if j % 7 == 6 { ItemKind::R } else { ItemKind::E }).collect()
+    } else {
+        plan.items.clone()
+    }
+}
+
 /// label of a scripted non-paged item
 pub fn item_label(marker: &str, j: usize, k: ItemKind, plan: &Plan) -> String {
     match k {
@@ -615,6 +644,8 @@ pub struct World {
     /// markers of calls that timed out before their request had reached the wire
     pub timed_out_unsent: BTreeSet<String>,
     pub injected: bool,
+    /// markers of calls whose caller went away mid-wait, and of streams dropped without finish()
+    pub cancelled_markers: BTreeSet<String>,
 }
 
 fn call_name(c: &Call) -> String {
@@ -673,6 +704,7 @@ impl World {
             stats_multi_outstanding: false,
             timed_out_unsent: BTreeSet::new(),
             injected: false,
+            cancelled_markers: BTreeSet::new(),
             scn,
         }
     }
@@ -707,12 +739,17 @@ impl World {
                     Call::Abandon(AbTarget::Marker(m)) => self.server.reqs.iter().any(|r| r.marker == *m),
                     _ => true,
                 };
-                if ok && c.kit.as_ref().map_or(false, |k| k.ldap.is_some() || matches!(spec.script[c.pos], Call::Next | Call::Finish | Call::NextInner | Call::FinishInner | Call::SingleViaStream { .. } | Call::StartInner { .. })) {
+                if ok && c.kit.as_ref().map_or(false, |k| k.ldap.is_some() || matches!(spec.script[c.pos], Call::Next | Call::Finish | Call::NextInner | Call::FinishInner | Call::SingleViaStream { .. } | Call::StartInner { .. } | Call::DropStream | Call::ExplicitStart)) {
                     out.push(Action::Do(i));
                 }
             } else if c.free_left > 0 && c.has_stream {
                 out.push(Action::DoFree(i, FreeCall::Next));
                 out.push(Action::DoFree(i, FreeCall::Finish));
+            }
+        }
+        for i in &self.scn.cancellable {
+            if self.clients.get(*i).map_or(false, |c| c.task.is_some()) {
+                out.push(Action::Cancel(*i));
             }
         }
         if let Some(d) = &self.driver {
@@ -783,6 +820,9 @@ impl World {
             return false;
         }
         if plan.silent_after_pages > 0 && r.page.is_some() && *self.server.pages_served.get(&r.marker).unwrap_or(&0) >= plan.silent_after_pages {
+            return false;
+        }
+        if plan.no_done && r.kind == RK::Search && r.sent >= r.items.len() {
             return false;
         }
         matches!(r.kind, RK::Single(_) | RK::Search)
@@ -882,6 +922,24 @@ impl World {
                 let b = self.scn.raw_inject.clone().unwrap_or_default();
                 self.io.lock().unwrap().deliver(&b);
             }
+            Action::Cancel(i) => {
+                // the future (and the handle / stream moved into it) is dropped mid-wait
+                let c = &mut self.clients[*i];
+                c.task = None;
+                let (call, t0) = c.cur.take().expect("cancel: current call");
+                if let Some(m) = match &call {
+                    Call::Single { marker, .. } | Call::Search { marker, .. } | Call::Start { marker, .. } => Some(marker.clone()),
+                    Call::Next | Call::Finish => Some(c.sm.marker.clone()),
+                    _ => None,
+                } {
+                    self.cancelled_markers.insert(m);
+                }
+                c.log.push(Obs { call: call_name(&call), ret: Ret::Err("CANCELLED".into(), "the caller dropped the future".into()), t_start: t0, t_end: self.now, last_id: -1, stream_state: None, stream_last_id: None });
+                c.kit = None;
+                c.has_stream = false;
+                c.inner = None;
+                c.pos = usize::MAX / 2;
+            }
             Action::DropAll => {
                 self.dropped_all = true;
                 self.probe = None;
@@ -916,7 +974,7 @@ impl World {
         self.clients[i].out_mark = self.io.lock().unwrap().out.len();
         self.clients[i].dead_at_start = !self.driver_alive();
         let before = self.probe.as_ref().map(|p| p.verif_msgmap());
-        let allocates = !matches!(call, Call::StartOwnPaging { .. }) && matches!(call, Call::Single { .. } | Call::Search { .. } | Call::Abandon(_) | Call::Unbind | Call::SingleViaStream { .. } | Call::StartInner { .. })
+        let allocates = !matches!(call, Call::StartOwnPaging { .. }) && matches!(call, Call::Single { .. } | Call::Search { .. } | Call::SearchOpts { .. } | Call::Abandon(_) | Call::Unbind | Call::SingleViaStream { .. } | Call::StartInner { .. })
             || matches!(&call, Call::Start { own_paging, chain, .. } if !(*own_paging && matches!(chain, Chain::Paged(_) | Chain::EntriesPaged(_) | Chain::PagedEntries(_))));
         self.clients[i].task = Some(Task::new(run_call(kit, call.clone(), ab_id)));
         self.poll_client(i);
@@ -1133,7 +1191,14 @@ impl World {
                     let op = match k {
                         ItemKind::E => Op::SearchEntry {
                             dn: label.clone().into_bytes(),
-                            attrs: vec![(b"cn".to_vec(), vec![b"v".to_vec()])],
+                            attrs: if plan.entry_value_size > 0 || plan.entry_values > 0 {
+                                vec![
+                                    (b"cn".to_vec(), vec![vec![b'v'; plan.entry_value_size.max(1)]]),
+                                    (b"member".to_vec(), (0..plan.entry_values.max(1)).map(|j| format!("uid=u{}", j).into_bytes()).collect()),
+                                ]
+                            } else {
+                                vec![(b"cn".to_vec(), vec![b"v".to_vec()])]
+                            },
                         },
                         ItemKind::R => Op::SearchRef(label.split(',').map(|u| u.as_bytes().to_vec()).collect()),
                         ItemKind::I if plan.bare_intermediate => Op::Intermediate { name: None, val: None },
@@ -1146,6 +1211,8 @@ impl World {
                     };
                     self.push_frame(&Msg { id, op, controls });
                     self.server.reqs[idx].sent += 1;
+                } else if plan.no_done {
+                    unreachable!("srv_can_answer excludes it");
                 } else {
                     let mut ctrls = vec![];
                     if plan.res_ctrls {
@@ -1343,7 +1410,7 @@ impl World {
                         self.judge_paged_request(&m, &marker, size, &cookie, served);
                     }
                 } else {
-                    req.items = plan.items.iter().enumerate().map(|(j, k)| (*k, item_label(&marker, j, *k, &plan))).collect();
+                    req.items = plan_items_of(&plan).iter().enumerate().map(|(j, k)| (*k, item_label(&marker, j, *k, &plan))).collect();
                 }
             }
         }
@@ -1371,7 +1438,12 @@ impl World {
             // in-flight call carrying this marker
             if let Some((call, _)) = &c.cur {
                 match call {
-                    Call::Single { marker: m, .. } | Call::Search { marker: m, .. } | Call::Start { marker: m, .. } | Call::SingleViaStream { marker: m, .. } | Call::StartInner { marker: m }
+                    Call::Single { marker: m, .. }
+                    | Call::Search { marker: m, .. }
+                    | Call::SearchOpts { marker: m }
+                    | Call::Start { marker: m, .. }
+                    | Call::SingleViaStream { marker: m, .. }
+                    | Call::StartInner { marker: m }
                         if m == marker =>
                     {
                         return true
@@ -1489,7 +1561,7 @@ impl World {
                 match &obs.ret {
                     Ret::SearchRes(items, r) => {
                         let want: Vec<String> =
-                            plan.items.iter().enumerate().filter(|(_, k)| **k == ItemKind::E).map(|(j, _)| format!("{}#{}", marker, j)).collect();
+                            plan_items_of(&plan).iter().enumerate().filter(|(_, k)| **k == ItemKind::E).map(|(j, _)| format!("{}#{}", marker, j)).collect();
                         // (entry labels do not depend on the reference / intermediate options)
                         let got: Vec<String> = items.iter().map(|x| x.label.clone()).collect();
                         let err_result = r.rc == 88 && r.text == "user cancelled";
@@ -1515,7 +1587,7 @@ impl World {
                         } else if k != "PANIC" && !faulted && !self.abandoned_marker(marker) {
                             self.v(&format!("call:unexpected-error:{}", k), format!("client {} {} failed without any fault: {}", i, obs.call, m));
                         }
-                        if k != "PANIC" && k != "Timeout" && o.term && !self.abandoned_marker(marker) && self.routed_frames(marker) > plan.items.len() {
+                        if k != "PANIC" && k != "Timeout" && o.term && !self.abandoned_marker(marker) && self.routed_frames(marker) > plan_items_of(&plan).len() {
                             self.v("term:delivered-response-lost", format!("client {} {}: every item and the final result had been delivered and routed, yet the call failed with {}", i, obs.call, m));
                         }
                     }
@@ -1593,7 +1665,7 @@ impl World {
             Call::NextInner => {
                 if let Some((marker, pos, open)) = self.clients[i].inner.clone() {
                     let plan = self.plan(&marker);
-                    let script: Vec<(ItemKind, String)> = plan.items.iter().enumerate().map(|(j, k)| (*k, item_label(&marker, j, *k, &plan))).collect();
+                    let script: Vec<(ItemKind, String)> = plan_items_of(&plan).iter().enumerate().map(|(j, k)| (*k, item_label(&marker, j, *k, &plan))).collect();
                     match &obs.ret {
                         Ret::Item(Some(g)) => {
                             match script.get(pos) {
@@ -1624,13 +1696,44 @@ impl World {
                 if let Some((marker, pos, open)) = self.clients[i].inner.clone() {
                     let plan = self.plan(&marker);
                     if let Ret::Fin(r) = &obs.ret {
-                        if open && pos >= plan.items.len() && r.rc != 88 {
+                        if open && pos >= plan_items_of(&plan).len() && r.rc != 88 {
                             if r.text != marker {
                                 self.v("stream:inner-finish", format!("client {} finish() of the inner search returned {:?}", i, r));
                             }
                         }
                     }
                     self.clients[i].inner = Some((marker, pos, false));
+                }
+            }
+            Call::SearchOpts { marker } => {
+                let as_search = Call::Search { marker: marker.clone(), timeout: None };
+                self.judge_call(i, &as_search, obs);
+            }
+            Call::DropStream => {
+                if self.clients[i].has_stream || obs.stream_state.is_some() {
+                    // (has_stream was refreshed from the kit before judging)
+                }
+                let m = self.clients[i].sm.marker.clone();
+                if self.clients[i].sm.state == "Active" {
+                    self.cancelled_markers.insert(m);
+                }
+                self.clients[i].stream_closed = true;
+                self.clients[i].inner = None;
+            }
+            Call::ExplicitStart => {
+                // documented as a no-op on a stream that has been started: no request, no state change
+                let sm_state = self.clients[i].sm.state;
+                match &obs.ret {
+                    Ret::Unit => {
+                        if self.server.reqs.iter().any(|r| r.marker == "explicit-start") {
+                            self.v("stream:explicit-start-sent-a-request", format!("client {}: an explicit start() on a stream in state {} sent a new search request", i, sm_state));
+                        }
+                        if obs.stream_state.as_deref() != Some(sm_state) && sm_state != "None" {
+                            self.v("stream:explicit-start-changed-state", format!("client {}: an explicit start() moved the stream from {} to {:?}", i, sm_state, obs.stream_state));
+                        }
+                    }
+                    Ret::Err(k, _) if k == "NoStream" => {}
+                    other => self.v("stream:explicit-start-failed", format!("client {}: an explicit start() in state {} returned {:?}", i, sm_state, other)),
                 }
             }
             Call::Abandon(_) | Call::Unbind | Call::DropHandle => {
@@ -1682,7 +1785,7 @@ impl World {
         let mut want_refs: Vec<String> = vec![];
         if is_search {
             // search(): URIs of reference messages merged into the referral list
-            for (j, k) in plan.items.iter().enumerate() {
+            for (j, k) in plan_items_of(&plan).iter().enumerate() {
                 if *k == ItemKind::R {
                     want_refs.extend(item_label(marker, j, *k, plan).split(',').map(|u| u.to_string()));
                 }
@@ -1736,13 +1839,13 @@ impl World {
                     }
                     out.extend((lo..hi).map(|j| (ItemKind::E, format!("{}#{}", sm.marker, j))));
                     served += 1;
-                    if !more || served > 64 {
+                    if !more || served > 1_000_000 {
                         break;
                     }
                 }
                 out
             }
-            _ => plan.items.iter().enumerate().map(|(j, k)| (*k, item_label(&sm.marker, j, *k, &plan))).collect(),
+            _ => plan_items_of(&plan).iter().enumerate().map(|(j, k)| (*k, item_label(&sm.marker, j, *k, &plan))).collect(),
         }
     }
 
@@ -1886,9 +1989,11 @@ impl World {
                         let mut p2 = plan.clone();
                         if !entries_only {
                             p2.items.clear();
+                            p2.many_items = 0;
                         }
                         if paged {
                             p2.items.clear();
+                            p2.many_items = 0;
                         }
                         // an EntriesOnly adapter anywhere in the chain merges the reference URIs of
                         // every page into the final result
@@ -2018,6 +2123,15 @@ impl World {
         if !self.scn.oracles.leak || !self.quiescent() || !self.driver_alive() || self.driver_polls == 0 {
             return;
         }
+        // an operation whose caller went away (future dropped, stream dropped without finish())
+        // is still outstanding until the server has finished answering it: only then must
+        // nothing be left of it
+        for m in &self.cancelled_markers {
+            let seen: Vec<&SReq> = self.server.reqs.iter().filter(|r| r.marker == *m).collect();
+            if seen.is_empty() || seen.iter().any(|r| !r.done && !r.abandoned) {
+                return;
+            }
+        }
         if let Some(p) = &self.probe {
             let (_, ids) = p.verif_msgmap();
             if !ids.is_empty() {
@@ -2142,7 +2256,7 @@ impl World {
     fn cur_marker(&self, i: usize) -> Option<String> {
         match &self.clients[i].cur {
             Some((Call::Single { marker, .. }, _)) | Some((Call::Search { marker, .. }, _)) | Some((Call::Start { marker, .. }, _)) => Some(marker.clone()),
-            Some((Call::SingleViaStream { marker, .. }, _)) | Some((Call::StartInner { marker }, _)) => Some(marker.clone()),
+            Some((Call::SingleViaStream { marker, .. }, _)) | Some((Call::StartInner { marker }, _)) | Some((Call::SearchOpts { marker }, _)) => Some(marker.clone()),
             Some((Call::NextInner, _)) | Some((Call::FinishInner, _)) => self.clients[i].inner.as_ref().map(|x| x.0.clone()),
             Some((Call::Next, _)) | Some((Call::Finish, _)) => Some(self.clients[i].sm.marker.clone()),
             _ => None,
@@ -2216,7 +2330,7 @@ impl World {
             self.viol.len(),
             self.injected
         );
-        let _ = write!(s, "RT{:?}U{:?}", self.routed, self.timed_out_unsent);
+        let _ = write!(s, "RT{:?}U{:?}X{:?}", self.routed, self.timed_out_unsent, self.cancelled_markers);
         s
     }
 
@@ -2256,6 +2370,9 @@ pub fn call_kind(c: &Call) -> &'static str {
         Call::Abandon(_) => "abandon",
         Call::Unbind => "unbind",
         Call::DropHandle => "drop",
+        Call::SearchOpts { .. } => "search()",
+        Call::DropStream => "drop-stream",
+        Call::ExplicitStart => "explicit-start",
         Call::SingleViaStream { .. } => "single-via-stream",
         Call::StartInner { .. } => "start-inner",
         Call::NextInner => "next-inner",
